@@ -1477,49 +1477,18 @@ impl<'a, R: FileManager> FrontendCtx<'a, R> {
         keys: Runtype,
         anchor: &Anchor,
     ) -> Res<Runtype> {
-        match keys.extract_single_string_const() {
-            Some(str) => Ok(Self::convert_pick_keys(obj, vec![str])),
-            None => match keys.kind {
-                RuntypeKind::AnyOf(rms) => {
-                    let mut keys = vec![];
-                    for rm in rms {
-                        match rm.extract_single_string_const() {
-                            Some(str) => {
-                                keys.push(str);
-                            }
-                            None => match rm.kind {
-                                RuntypeKind::Ref(n) => {
-                                    let map = self
-                                        .partial_validators
-                                        .get(&n)
-                                        .and_then(|it| it.as_ref())
-                                        .cloned();
-                                    let k = map.and_then(|it| it.extract_single_string_const());
-                                    match k {
-                                        Some(str) => keys.push(str),
-                                        _ => {
-                                            return self.error(
-                                                anchor,
-                                                DiagnosticInfoMessage::PickNeedsString,
-                                            );
-                                        }
-                                    }
-                                }
-                                _ => {
-                                    return self
-                                        .error(anchor, DiagnosticInfoMessage::PickNeedsString);
-                                }
-                            },
-                        }
-                    }
-                    Ok(Self::convert_pick_keys(obj, keys))
-                }
-                _ => self.error(
-                    anchor,
-                    DiagnosticInfoMessage::PickShouldHaveStringOrStringArrayAsTypeArgument,
-                ),
-            },
-        }
+        // the key argument may be a literal, a union, or an alias of either (like in convert_omit)
+        let keys = self
+            .extract_union(keys)
+            .map_err(|e| self.box_error(anchor, e))?;
+        let str_keys = keys
+            .iter()
+            .map(|it| match it.extract_single_string_const() {
+                Some(str) => Ok(str),
+                _ => self.error(anchor, DiagnosticInfoMessage::PickNeedsString),
+            })
+            .collect::<Res<Vec<_>>>()?;
+        Ok(Self::convert_pick_keys(obj, str_keys))
     }
     fn convert_omit_keys(
         obj: &BTreeMap<String, Optionality<Runtype>>,
